@@ -176,8 +176,85 @@ def shard_tokens(args):
     return acc.export()
 
 
+TOKENS3 = ("\x1b", "\x1b[", "\x1b[3", "\x1bM", "\x1b7", "\x1b[99m", "\x1b[31m", "H", "ello", "abc ", "\x1b[2K", "\x9b", "m", "\x1b]0;t\x07")
+
+
+def shard_tokens3(args):
+    """Third alphabet: whole tokens - cut-off introducers, two-byte escapes, supported / unsupported SGR, other CSI, OSC, text that reads
+    like the tail of a sequence - in every order."""
+    tier, seed, first = args
+    acc = Acc(seed=seed)
+    maxn = 5 if tier == "thorough" else 4
+    for n in range(0, maxn):
+        for tail in itertools.product(TOKENS3, repeat=n):
+            s = TOKENS3[first] + "".join(tail)
+            acc.case(True, key=("t3", s), sample=lambda: {"s": s})
+            check(acc, s, {"s": s})
+    return acc.export()
+
+
+COLOUR_VALUES = (0, 1, 7, 8, 127, 128, 255, 256, 511, 512, 1023, 1024, 65535, 65536, 99999999)
+
+
+def shard_colour_values(args):
+    """Extended-colour parameters far outside 0..255 in every position of 38;2;r;g;b / 48;2;r;g;b / 38;5;n / 48;5;n."""
+    tier, seed, idx = args
+    acc = Acc(seed=seed)
+    k = 0
+    for lead in ("38", "48", "1;38", "0;48"):
+        for r in COLOUR_VALUES:
+            for g in COLOUR_VALUES:
+                for b in COLOUR_VALUES:
+                    k += 1
+                    if k % 16 != idx:
+                        continue
+                    s = "x\x1b[%s;2;%d;%d;%dmy\x1b[0mz" % (lead, r, g, b)
+                    acc.case(True, key=("cv", s), sample=lambda: {"s": s})
+                    check(acc, s, {"s": s})
+        for n_ in list(range(0, 300)) + list(COLOUR_VALUES):
+            k += 1
+            if k % 16 != idx:
+                continue
+            s = "x\x1b[%s;5;%dmy\x1b[mz" % (lead, n_)
+            acc.case(True, key=("cv", s), sample=lambda: {"s": s})
+            check(acc, s, {"s": s})
+    return acc.export()
+
+
+def long_offsets(tier):
+    """Every offset up to 2 600 (thorough 8 000), then the neighbourhood (-3..+2) of every multiple of 500 up to 70 000."""
+    top = 8000 if tier == "thorough" else 2600
+    offs = set(range(0, top))
+    for m in range(500, 70001, 500):
+        offs.update(range(m - 3, m + 3))
+    return sorted(offs)
+
+
+def shard_long(args):
+    """A sequence at a swept offset of a long newline-free text (chunked / windowed parsing meets it at some offset)."""
+    tier, seed, idx, nshards = args
+    acc = Acc(seed=seed, sample_stride=997)
+    seqs = ("\x1b[31m", "\x1b[99m", "\x1b[2K", "\x1b[1;31;44m")
+    for oi, off in enumerate(long_offsets(tier)):
+        if oi % nshards != idx:
+            continue
+        seq = seqs[oi % len(seqs)] if off < 8000 else None
+        for sq in ([seq] if seq else seqs[:2]):
+            s = "a" * off + sq + "b" * 20 + "\x1b[0m" + "c"
+            case = {"long_text": True, "lead": off, "sequence": sq}
+            acc.case(True, key=("long", off, sq), sample=case)
+            check(acc, s, case)
+    return acc.export()
+
+
 def run(ctx):
     rep = Report()
+    for d in ctx.pmap(shard_long, [(ctx.tier, ctx.seed, i, 48) for i in range(48)]):
+        rep.merge(d, "long_text_offset_sweep")
+    for d in ctx.pmap(shard_colour_values, [(ctx.tier, ctx.seed, i) for i in range(16)]):
+        rep.merge(d, "extended_colour_values")
+    for d in ctx.pmap(shard_tokens3, [(ctx.tier, ctx.seed, i) for i in range(len(TOKENS3))]):
+        rep.merge(d, "whole_token_alphabet")
     repeat.run_into(ctx, rep, "C17")
     for d in ctx.pmap(shard_tokens, [(ctx.tier, ctx.seed, i) for i in range(len(TOKENS2))]):
         rep.merge(d, "extended_colour_tokens")
@@ -205,5 +282,7 @@ def run(ctx):
 
 def replay(ctx, case):
     acc = Acc()
+    if case.get("long_text"):
+        case = dict(case, s="a" * case["lead"] + case["sequence"] + "b" * 20 + "\x1b[0m" + "c")
     check(acc, case["s"], case)
     return [(s, e["cases"][0]["message"]) for s, e in acc.fail.items()]
